@@ -952,6 +952,44 @@ func closesOnNonKafka(fd *ast.FuncDecl, shortBuffer bool) bool {
 	return good == 1 && closes == 1
 }
 
+// batchCloseMindsDiscard: in (*Batch).close the result of `….discard()` (skipping what is left of the response) is
+// assigned — `x := ….discard()`, `x = ….discard()` or the init of an if — and never dropped as a bare call.  (An assigned
+// but unused variable does not compile.)
+func batchCloseMindsDiscard(fd *ast.FuncDecl) bool {
+	if fd == nil {
+		return false
+	}
+	isDiscard := func(e ast.Expr) bool {
+		c, ok := e.(*ast.CallExpr)
+		if !ok {
+			return false
+		}
+		sel, ok := c.Fun.(*ast.SelectorExpr)
+		return ok && sel.Sel.Name == "discard" && len(c.Args) == 0
+	}
+	assigned, dropped := 0, 0
+	ast.Inspect(fd.Body, func(n ast.Node) bool {
+		switch s := n.(type) {
+		case *ast.ExprStmt:
+			if isDiscard(s.X) {
+				dropped++
+			}
+		case *ast.AssignStmt:
+			for i, r := range s.Rhs {
+				if isDiscard(r) {
+					if id, ok := s.Lhs[i].(*ast.Ident); ok && id.Name == "_" {
+						dropped++
+					} else {
+						assigned++
+					}
+				}
+			}
+		}
+		return true
+	})
+	return assigned >= 1 && dropped == 0
+}
+
 // transportDropsFailed: in the request loop of (*conn).run, a test of the error (`if err != nil { … }` or
 // `if err == nil { … } else { … }`) whose error branch contains a break / return occurs before the first statement that
 // calls releaseConn.
@@ -1429,6 +1467,7 @@ func extractConnLegacy(repo, root string) error {
 	fmt.Fprintf(&b, "/-- conn.go ReadBatchWith: at the high watermark (empty reader) the message set of the response is discarded -/\ndef fetchSkipsAtWatermark : Bool := %v\n\n", skips)
 	// which errors close the connection: `if !errors.As(err, &kafkaError) { c.conn.Close() }` in do,
 	// `if !errors.As(err, &kafkaError) && !errors.Is(err, io.ErrShortBuffer) { conn.Close() }` in Batch.close
+	fmt.Fprintf(&b, "/-- (*Batch).close uses the result of msgs.discard(): a response whose rest cannot be skipped does not end in a kept Conn -/\ndef batchCloseMindsDiscard : Bool := %v\n\n", batchCloseMindsDiscard(connFns["Batch.close"]))
 	fmt.Fprintf(&b, "/-- (*Conn).do / (*Batch).close close the connection exactly on errors that are not kafka errors (Batch: nor io.ErrShortBuffer) -/\ndef doClosesNonKafka : Bool := %v\ndef batchClosesNonKafka : Bool := %v\n\n",
 		closesOnNonKafka(connFns["do"], false), closesOnNonKafka(connFns["Batch.close"], true))
 	b.WriteString("def callsOf (m : String) : List String := ((calls.find? (·.1 == m)).map (·.2)).getD []\n")
